@@ -303,6 +303,14 @@ def build_cases(ctx, n_raw, n_inc, n_bad):
                 pr.append([rng.choice(inside), rng.choice(inside)])
             c['pairs'] = pr
             c['oracle'] = True
+            if k % 4 == 1 and len(c.get('Ts') or []) >= 2 and c.get('T_ref') is not None:
+                # in the same process, first: the same table with ANOTHER reference temperature inside it
+                other_T = [t for t in c['Ts'] if t != c['T_ref']]
+                w = {kk: c[kk] for kk in ('cls', 'Ts', 'Cps', 'H', 'S', 'range') if kk in c}
+                w['T_ref'] = rng.choice(other_T)
+                if w.get('range'):
+                    w['range'] = [min(w['range'][0], w['T_ref']), max(w['range'][1], w['T_ref'])]
+                c['warm'] = [w]
             cases.append(c)
             k += 1
     for i in range(n_bad):
@@ -402,8 +410,15 @@ def run(ctx):
     import json as _json
     seqs = [c13.gen_seq(ctx) for _ in range(ctx.n(40, 400))]
     for job_, r_ in zip(seqs, vlib.run_impl_sharded('thermo', seqs, timeout=900)):
+        prev_state = r_.get('init_state')
         for k_, st_ in enumerate(r_.get('steps', [])):
             sv = st_.get('self_vals') or {}
+            if st_.get('exc') == 'ReadOnlyDataError' and prev_state is not None and st_.get('state') is not None and st_['state'] != prev_state:
+                # a refused merge: table, reference values and range are as before (and the table is what the spline was fitted to)
+                ctx.violate('merged-refused', 'a refused merge left the correlation changed (its table no longer is what it evaluates)',
+                            dict(job_, step=k_), prev_state, st_['state'])
+            if st_.get('state') is not None:
+                prev_state = st_['state']
             if 'exc' in st_ or 'cur' not in sv:
                 continue
             stt = st_['state']
